@@ -154,7 +154,7 @@ def VolumeMatrix(
     logger.info(f"Calculate the Voronoi volume matrix for configuration No.{nconfig}")
     box = list_box[nconfig]
     points = list_points[nconfig].copy()  # perturbed below; may alias snapshot.positions
-    num_particles = points.shape[nconfig]
+    num_particles = points.shape[0]
     matrixA = np.zeros((num_particles, num_particles * ndim))
 
     # original voronoi volume
@@ -200,5 +200,5 @@ def VolumeMatrix(
             np.save(outputfile, matrixA_transformation)
         return matrixA_transformation
     if outputfile:
-        np.save(matrixA, outputfile)
+        np.save(outputfile, matrixA)
     return matrixA
